@@ -126,19 +126,23 @@ func createPresignedHttpRequestFromCtx(ctx *fiber.Ctx, signedHdrs []string, cont
 		body = bytes.NewReader(req.Body())
 	}
 
-	uri := string(ctx.Request().URI().Path())
+	// the path as the url decoder middleware left it (decoded once): the
+	// request URI would decode it a second time, and the signature would be
+	// verified for another key than the one the handlers act on
+	uri := ctx.Path()
 	uri = httpbinding.EscapePath(uri, false)
 	isFirst := true
 
 	ctx.Request().URI().QueryArgs().VisitAll(func(key, value []byte) {
 		_, ok := signedQueryArgs[string(key)]
 		if !ok {
+			escapeKey := url.QueryEscape(string(key))
 			escapeValue := url.QueryEscape(string(value))
 			if isFirst {
-				uri += fmt.Sprintf("?%s=%s", key, escapeValue)
+				uri += fmt.Sprintf("?%s=%s", escapeKey, escapeValue)
 				isFirst = false
 			} else {
-				uri += fmt.Sprintf("&%s=%s", key, escapeValue)
+				uri += fmt.Sprintf("&%s=%s", escapeKey, escapeValue)
 			}
 		}
 	})
